@@ -168,6 +168,22 @@ def history(rng, length=None, al=None, p_branch=0.0, maint=True, p_extra=0.35, o
         ])
         pos = rng.randrange(0, len(steps) + 1)
         steps[pos:pos] = pat
+    if maint and rng.random() < 0.3:
+        # an optimum found on a solver, a copy of the solver, the optimum in the other signedness (and the other
+        # direction) asked on the copy and then on the original
+        s = rng.randrange(nsolvers)
+        x = rng.choice([al.v(0), al.expr()])
+        op1 = rng.choice(["max", "min"])
+        sg = rng.random() < 0.5
+        other = "min" if op1 == "max" else "max"
+        steps += [
+            {"op": op1, "s": s, "e": x, "signed": sg, "extra": []},
+            {"op": "branch", "s": s},
+            {"op": op1, "s": nsolvers, "e": x, "signed": not sg, "extra": []},
+            {"op": other, "s": nsolvers, "e": x, "signed": sg, "extra": []},
+            {"op": op1, "s": nsolvers, "e": x, "signed": sg, "extra": []},
+            {"op": op1, "s": s, "e": x, "signed": not sg, "extra": []},
+        ]
     return al, steps
 
 
